@@ -147,6 +147,11 @@ func genC13(t *rapid.T) C13Case {
 		for i := rapid.IntRange(0, 5).Draw(t, "body"); i > 0; i-- {
 			c.Lines = append(c.Lines, YLine{K: "other", Val: rapid.SampledFrom(yamlOther).Draw(t, "bodyline")})
 		}
+		if !lab["long-payload-line"] && rapid.IntRange(0, 60).Draw(t, "longline") == 0 {
+			// a payload longer than 64 KiB: just another line whose content stays untouched
+			c.Lines = append(c.Lines, YLine{K: "other", Val: "          data: \"" + strings.Repeat("A", 66000+rapid.IntRange(0, 3000).Draw(t, "longlen")) + "\""})
+			lab["long-payload-line"] = true
+		}
 	}
 	if misnumbered {
 		lab["misnumbered"] = true
